@@ -175,6 +175,84 @@ theorem appender_emitRData (t : Nat) (d : RData) (hm : d.emitModelled = true) : 
     · exact appender_emitU16 _
     · exact appender_errOther _ _ (appender_emitU16 _)
     · exact appender_emitSlice _
+  case openpgpkey d => exact appender_emitSlice d
+  case ds tag alg dt dg =>
+    refine seqAll_appender _ ?_
+    intro f hf
+    simp only [List.mem_cons, List.not_mem_nil, or_false] at hf
+    rcases hf with rfl | rfl | rfl | rfl
+    all_goals first | exact appender_emitU16 _ | exact appender_emitU8 _ | exact appender_emitSlice _
+  case dnskey cd flags alg key =>
+    refine seqAll_appender _ ?_
+    intro f hf
+    simp only [List.mem_cons, List.not_mem_nil, or_false] at hf
+    rcases hf with rfl | rfl | rfl | rfl
+    all_goals first | exact appender_emitU16 _ | exact appender_emitU8 _ | exact appender_emitSlice _
+  case tlsa u sel m d =>
+    refine seqAll_appender _ ?_
+    intro f hf
+    simp only [List.mem_cons, List.not_mem_nil, or_false] at hf
+    rcases hf with rfl | rfl | rfl | rfl
+    all_goals first | exact appender_emitU16 _ | exact appender_emitU8 _ | exact appender_emitSlice _
+  case sshfp a f' d =>
+    refine seqAll_appender _ ?_
+    intro f hf
+    simp only [List.mem_cons, List.not_mem_nil, or_false] at hf
+    rcases hf with rfl | rfl | rfl
+    all_goals first | exact appender_emitU16 _ | exact appender_emitU8 _ | exact appender_emitSlice _
+  case cert ct tag alg d =>
+    refine appender_withRdataBehavior (seqAll_appender _ ?_) _
+    intro f hf
+    simp only [List.mem_cons, List.not_mem_nil, or_false] at hf
+    rcases hf with rfl | rfl | rfl | rfl
+    all_goals first | exact appender_emitU16 _ | exact appender_emitU8 _ | exact appender_emitSlice _
+  case nsec3param oo iter salt =>
+    refine seqAll_appender _ ?_
+    intro f hf
+    simp only [List.mem_cons, List.not_mem_nil, or_false] at hf
+    rcases hf with rfl | rfl | rfl | rfl | rfl
+    all_goals first | exact appender_emitU16 _ | exact appender_emitU8 _ | exact appender_emitSlice _
+  case key flags proto alg k =>
+    refine seqAll_appender _ ?_
+    intro f hf
+    simp only [List.mem_cons, List.not_mem_nil, or_false] at hf
+    rcases hf with rfl | rfl | rfl | rfl
+    all_goals first | exact appender_emitU16 _ | exact appender_emitU8 _ | exact appender_emitSlice _
+  case naptr order pref flags services regexp n =>
+    refine appender_withRdataBehavior (seqAll_appender _ ?_) _
+    intro f hf
+    simp only [List.mem_cons, List.not_mem_nil, or_false] at hf
+    rcases hf with rfl | rfl | rfl | rfl | rfl | rfl
+    · exact appender_emitU16 _
+    · exact appender_emitU16 _
+    · exact appender_emitCharacterData _
+    · exact appender_emitCharacterData _
+    · exact appender_emitCharacterData _
+    · exact appender_emitName _
+  case sig covered alg labels ottl exp inc tag signer sg =>
+    refine appender_withRdataBehavior (seqAll_appender _ ?_) _
+    intro f hf
+    simp only [List.mem_cons, List.not_mem_nil, or_false] at hf
+    rcases hf with rfl | rfl
+    · refine appender_withRdataBehavior (seqAll_appender _ ?_) _
+      intro g hg
+      simp only [List.mem_cons, List.not_mem_nil, or_false] at hg
+      rcases hg with rfl | rfl | rfl | rfl | rfl | rfl | rfl | rfl
+      · exact appender_emitU16 _
+      · exact appender_emitU8 _
+      · exact appender_emitU8 _
+      · exact appender_emitU32 _
+      · exact appender_emitU32 _
+      · exact appender_emitU32 _
+      · exact appender_emitU16 _
+      · exact appender_emitName _
+    · exact appender_emitSlice _
+  case caa cr rs tag v =>
+    refine appender_withRdataBehavior (seqAll_appender _ ?_) _
+    intro f hf
+    simp only [List.mem_cons, List.not_mem_nil, or_false] at hf
+    rcases hf with rfl | rfl | rfl | rfl
+    all_goals first | exact appender_errOther _ _ (appender_emitU8 _) | exact appender_emitU8 _ | exact appender_emitSlice _
 
 /-- **`Record::emit` only ever appends** (so `emitIter_prefix` applies to every section) -/
 theorem appender_emitRecord (r : Record) (hm : r.rdata.emitModelled = true) : Appender (emitRecord r) := by
